@@ -9,6 +9,7 @@
 (*   C05  Bcc condition table 16 x 256, both displacement sizes            *)
 (*   C06  TRAPA #n followed by RTE is the identity on the context          *)
 (*   C08  effective-address arithmetic against a byte-wise formulation     *)
+(*   C14  TRAPA #0: write / set_handler (+ later acceptance) / other calls  *)
 (* One state per case (chosen in Init); the invariant is the property.     *)
 (***************************************************************************)
 EXTENDS H8Exec
@@ -145,22 +146,66 @@ MovMem(sz, mode, fd, an, v, ccr, up) ==
 
 ValsOf(sz) == IF sz = 1 THEN {<<0, v>> : v \in Vals8} ELSE IF sz = 2 THEN {<<0, v * 257>> : v \in Vals8} \cup {<<0, 32768>>, <<0, 255>>}
               ELSE {<<v * 257, (v * 131 + 1) % P16>> : v \in Vals8} \cup {<<32768, 0>>, <<0, 0>>, <<0, 65535>>}
-Init ==
-  \/ "C04" \in Groups /\ c \in {<<"C04", m, v, n, cf, f>> : m \in 1..14, v \in Vals8, n \in 0..7, cf \in {0, 1}, f \in {0, 9, 15}}
-  \/ "C05" \in Groups /\ c \in {<<"C05", cc, ccr, form, d>> : cc \in 0..15, ccr \in 0..255, form \in {8, 16}, d \in {0, 2, 126, -128, -2}}
-  \/ "C06" \in Groups /\ c \in {<<"C06", n, ccr, sp, top>> : n \in 1..3, ccr \in Ccrs, sp \in {<<255, 61184>>, <<23295, 61188>>, <<95, 65520>>}, top \in {0, 90, 255}}
-  \/ "C08" \in Groups /\ c \in {<<"C08", up, base, d>> : up \in {0, 1, 128, 255}, base \in {0, 1, 255, 32768, 65535, 65536, 16760608, 16777214, 16777215, 4194304},
-                                                          d \in {0, 1, 2, 255, 256, 32767, 32768, 32769, 65280, 65534, 65535}}
-  \/ "C01" \in Groups /\ \E sz \in {1, 2, 4} :
-        \/ c \in {<<"C01r", sz, fs, fd, v, ccr>> : fs \in 0..15, fd \in 0..15, v \in ValsOf(sz), ccr \in Ccrs}
-        \/ c \in {<<"C01m", sz, mode, fd, an, v, ccr, up>> : mode \in {"ind", "inc", "dec"}, fd \in 0..15, an \in {0, 3, 7}, v \in ValsOf(sz), ccr \in Ccrs, up \in {0, 165}}
-Next == UNCHANGED c
+(* TLC checks the invariant of INITIAL states in a single thread, so Init only holds seeds; every seed *)
+(* expands into its cases as successor states, which all workers share.                                 *)
+(* ------------------------------------------------------------------ C14 *)
+Be4(x) == <<x \div 16777216, (x \div P16) % 256, (x \div 256) % 256, x % 256>>
+Texts == << <<>>, <<65>>, <<72, 105, 10>>, <<0, 92, 110, 34, 58, 9, 126>>, <<195, 169, 226, 130, 172, 240, 159, 152, 128>> >>   \* "", "A", "Hi\n", NUL \ n " : TAB ~, 2/3/4-byte UTF-8
+MesWrite(ti, bufsel, ccr) ==
+  LET blk == 16764192                                            \* argument block H'FFCD20
+      buf == IF bufsel = 0 THEN 16768000 ELSE 5242881              \* on-chip RAM / DRAM (odd address)
+      txt == Texts[ti]
+      er0 == [Marker EXCEPT ![0] = <<0, 104>>, ![1] = <<blk \div P16, blk % P16>>]
+      s == MkS(<<22272>>, er0, ccr, << <<blk, Be4(1) \o Be4(buf) \o Be4(Len(txt))>> >> \o (IF txt = <<>> THEN <<>> ELSE << <<buf, txt>> >>))
+      x == StepF(s)
+  IN x.res = "ok" /\ x.con = txt /\ x.sys = "write" /\ x.pc = PC0 + 2 /\ x.er = er0 /\ x.ccr = ccr /\ x.wr = {<<>>}
+MesHandler(v, h, ccr) ==
+  LET blk == 16764192
+      er0 == [Marker EXCEPT ![0] = <<0, 113>>, ![1] = <<blk \div P16, blk % P16>>, ![7] = <<255, 61184>>]
+      s == MkS(<<22272>>, er0, ccr, << <<blk, Be4(v) \o Be4(h)>> >>)
+      x == StepF(s)
+      (* install: any admissible write sequence, unspecified bytes filled with H'5A *)
+      after(w) == [er |-> x.er, ccr |-> x.ccr, pc |-> x.pc, mem |-> WrAll(s.mem, [i \in 1..Len(w) |-> <<w[i][1], IF w[i][2] = -1 THEN 90 ELSE w[i][2]>>])]
+  IN /\ x.res = "ok" /\ x.pc = PC0 + 2 /\ x.er = er0 /\ x.ccr = ccr /\ x.con = <<>>
+     /\ IF v >= 1 /\ v <= 63
+        THEN \A w \in x.wr : LET y == AcceptF(after(w), v) IN y.res = "ok" /\ y.pc = h                \* a later interrupt of that vector enters h
+        ELSE x.wr = {<<>>}                                                                            \* other vectors are ignored
+MesOther(id, ccr) ==
+  LET er0 == [Marker EXCEPT ![0] = id, ![1] = <<255, 52512>>]
+      x == StepF(MkS(<<22272>>, er0, ccr, <<>>))
+  IN x.res = "err" /\ x.wr = {<<>>}
+
+Seeds ==
+  (IF "C04" \in Groups THEN {<<"seed", "C04", m, n>> : m \in 1..14, n \in 0..7} ELSE {})
+  \cup (IF "C05" \in Groups THEN {<<"seed", "C05", cc, form>> : cc \in 0..15, form \in {8, 16}} ELSE {})
+  \cup (IF "C06" \in Groups THEN {<<"seed", "C06", n, top>> : n \in 1..3, top \in {0, 90, 255}} ELSE {})
+  \cup (IF "C08" \in Groups THEN {<<"seed", "C08", up, 0>> : up \in {0, 1, 128, 255}} ELSE {})
+  \cup (IF "C14" \in Groups THEN {<<"seed", "C14", k, 0>> : k \in 1..3} ELSE {})
+  \cup (IF "C01" \in Groups THEN {<<"seed", "C01r", sz, fs>> : sz \in {1, 2, 4}, fs \in 0..15}
+                                  \cup {<<"seed", "C01m", sz, fd>> : sz \in {1, 2, 4}, fd \in 0..15} ELSE {})
+Expand(sd) ==
+  CASE sd[2] = "C04" -> {<<"C04", sd[3], v, sd[4], cf, f>> : v \in Vals8, cf \in {0, 1}, f \in {0, 9, 15}}
+    [] sd[2] = "C05" -> {<<"C05", sd[3], ccr, sd[4], d>> : ccr \in 0..255, d \in {0, 2, 126, -128, -2}}
+    [] sd[2] = "C06" -> {<<"C06", sd[3], ccr, sp, sd[4]>> : ccr \in Ccrs, sp \in {<<255, 61184>>, <<23295, 61188>>, <<95, 65520>>}}
+    [] sd[2] = "C08" -> {<<"C08", sd[3], base, d>> : base \in {0, 1, 255, 32768, 65535, 65536, 16760608, 16777214, 16777215, 4194304},
+                                                     d \in {0, 1, 2, 255, 256, 32767, 32768, 32769, 65280, 65534, 65535}}
+    [] sd[2] = "C14" -> (IF sd[3] = 1 THEN {<<"C14w", ti, bufsel, ccr>> : ti \in 1..Len(Texts), bufsel \in {0, 1}, ccr \in Ccrs}
+                         ELSE IF sd[3] = 2 THEN {<<"C14h", v, h, ccr>> : v \in (0..70) \cup {255, 256}, h \in {16769024, 4259840, 2}, ccr \in {0, 128, 255}}
+                         ELSE {<<"C14o", id, ccr>> : id \in {<<0, 0>>, <<0, 1>>, <<0, 103>>, <<0, 105>>, <<0, 112>>, <<0, 114>>, <<0, 255>>, <<1, 104>>, <<1, 113>>, <<65535, 65535>>}, ccr \in {0, 255}})
+    [] sd[2] = "C01r" -> {<<"C01r", sd[3], sd[4], fd, v, ccr>> : fd \in 0..15, v \in ValsOf(sd[3]), ccr \in Ccrs}
+    [] OTHER -> {<<"C01m", sd[3], mode, sd[4], an, v, ccr, up>> : mode \in {"ind", "inc", "dec"}, an \in {0, 3, 7}, v \in ValsOf(sd[3]), ccr \in Ccrs, up \in {0, 165}}
+Init == c \in Seeds
+Next == c[1] = "seed" /\ c' \in Expand(c)
 Spec == Init /\ [][Next]_c
 Inv ==
-  CASE c[1] = "C04" -> BitCase(BitMns[c[2]], c[3], c[4], c[5], c[6])
+  CASE c[1] = "seed" -> TRUE
+    [] c[1] = "C04" -> BitCase(BitMns[c[2]], c[3], c[4], c[5], c[6])
     [] c[1] = "C05" -> BccCase(c[2], c[3], c[4], c[5])
     [] c[1] = "C06" -> ExcCase(c[2], c[3], c[4], c[5])
     [] c[1] = "C08" -> EaCase(c[2], c[3], c[4])
+    [] c[1] = "C14w" -> MesWrite(c[2], c[3], c[4])
+    [] c[1] = "C14h" -> MesHandler(c[2], c[3], c[4])
+    [] c[1] = "C14o" -> MesOther(c[2], c[3])
     [] c[1] = "C01r" -> MovRR(c[2], c[3], c[4], c[5], c[6])
     [] OTHER -> MovMem(c[2], c[3], c[4], c[5], c[6], c[7], c[8])
 =============================================================================
